@@ -218,11 +218,16 @@ SERVER_BAD = [
     (b"POST / HTTP/1.1\r\nHost: a\r\nContent-Length: 5abc\r\n\r\nhelloXYZ", "server-lenient-content-length"),
     (b"POST / HTTP/1.1\r\nHost: a\r\nContent-Length: +5\r\n\r\nhello", "server-lenient-content-length"),
     (b"POST / HTTP/1.1\r\nHost: a\r\nContent-Length: 5\r\nContent-Length: 6\r\n\r\nhello!", "server-lenient-content-length"),
-    (b"POST / HTTP/1.1\r\nHost: a\r\nContent-Length: 5, 5\r\n\r\nhello", "server-lenient-content-length"),
     (b"POST / HTTP/1.1\r\nHost: a\r\nTransfer-Encoding: xchunkedy\r\n\r\n0\r\n\r\n", "server-te-substring"),
     (b"POST / HTTP/1.1\r\nHost: a\r\nContent-Length: 3\r\nTransfer-Encoding: chunked\r\n\r\n0\r\n\r\n", "server-cl-and-te-accepted"),
     (b"POST / HTTP/1.1\r\nHost: a\r\nTransfer-Encoding: chunked\r\n\r\n0x5\r\nhello\r\n0\r\n\r\n", "server-lenient-chunk-size"),
     (b"POST / HTTP/1.1\r\nHost: a\r\nTransfer-Encoding: chunked\r\n\r\n+5\r\nhello\r\n0\r\n\r\n", "server-lenient-chunk-size"),
+    (b"POST / HTTP/1.1\r\nHost: a\r\nTransfer-Encoding: chunked\r\n\r\n5 \r\nhello\r\n0\r\n\r\n", "server-lenient-chunk-size"),
+    (b"POST / HTTP/1.1\r\nHost: a\r\nTransfer-Encoding: chunked\r\n\r\n5\r\nhelloXX0\r\n\r\n", "server-lenient-chunk-size"),
+    (b"POST / HTTP/1.1\r\nHost: a\r\nTransfer-Encoding: chunked, gzip\r\n\r\n0\r\n\r\n", "server-te-substring"),
+    (b"POST / HTTP/1.1\r\nHost: a\r\nContent-Length: 5, 6\r\n\r\nhello!", "server-lenient-content-length"),
+    (b"POST / HTTP/1.1\r\nHost: a\r\nContent-Length: \r\n\r\n", "server-lenient-content-length"),
+    (b"POST / HTTP/1.1\r\nHost: a\r\nContent-Length: -0\r\n\r\n", "server-lenient-content-length"),
 ]
 SERVER_HOSTILE = [
     b"POST / HTTP/1.1\r\nHost: a\r\nTransfer-Encoding: chunked\r\n\r\nFFFFFFFFFFFFFFEC\r\n",
@@ -330,7 +335,7 @@ def build_cases(ctx):
     for pi in range(npipe):
         reqs = [gen_request(rng, i + 1) for i in range(rng.randint(1, 4))]
         stream = b"".join(r[0] for r in reqs)
-        expected = " ".join("Q:" + hx(r[0]) for r in reqs) + " buf=0"
+        expected = " ".join("Q:" + hx(r[0]) for r in reqs) + " buf=0 H=" + ",".join(hx(r[1]) for r in reqs)
         gid = "s%d" % pi
         add("SV " + hx(stream), kind="sv-valid", group=gid, expect=expected,
             bodies=[(i + 1, r[1], r[2]) for i, r in enumerate(reqs)])
@@ -347,7 +352,7 @@ def build_cases(ctx):
             r1 = gen_request(rng, 1, allow_trailers=True)
         r2 = gen_request(rng, 2)
         add("SV " + hx(r1[0] + r2[0]), kind="sv-trailers",
-            expect="Q:%s Q:%s buf=0" % (hx(r1[0]), hx(r2[0])))
+            expect="Q:%s Q:%s buf=0 H=%s,%s" % (hx(r1[0]), hx(r2[0]), hx(r1[1]), hx(r2[1])))
     for w, sig in SERVER_BAD:
         add("SV " + hx(w), kind="sv-bad", sig=sig)
     for w in SERVER_HOSTILE:
@@ -378,7 +383,7 @@ def witness_cases():
     for w, sig in SERVER_BAD:
         out.append(("SV " + hx(w), {"kind": "sv-bad", "sig": sig}))
     tr = b"POST / HTTP/1.1\r\nHost: a\r\nTransfer-Encoding: chunked\r\n\r\n1\r\nx\r\n0\r\nT: v\r\n\r\nGET / HTTP/1.1\r\nHost: a\r\n\r\n"
-    exp = "Q:%s Q:%s buf=0" % (hx(tr[:tr.index(b"GET")]), hx(tr[tr.index(b"GET"):]))
+    exp = "Q:%s Q:%s buf=0 H=%s,-" % (hx(tr[:tr.index(b"GET")]), hx(tr[tr.index(b"GET"):]), hx(b"x"))
     out.append(("SV " + hx(tr), {"kind": "sv-trailers", "expect": exp}))
     return out
 
@@ -417,7 +422,12 @@ def evaluate(ctx, v, cases, impl, model):
             else:
                 stats["nontrivial"].add(line)
         elif k == "sv-valid":
-            if ri != meta["expect"]:
+            if ri != meta["expect"] and strip_h(ri) == strip_h(meta["expect"]):
+                v.property_failure("server-body-not-decoded", "the body handed to the handler is not the encoded body (a chunked "
+                                   "request body reaches the application as raw chunk syntax)", line,
+                                   "handed=%s\nencoded=%s" % (ri.rsplit(" H=", 1)[-1][:600], meta["expect"].rsplit(" H=", 1)[-1][:600]))
+                failed = True
+            elif ri != meta["expect"]:
                 v.property_failure("server-framing-exact", "server does not frame exactly the encoded requests "
                                    "(or the result depends on the segmentation)", line,
                                    "impl=%s\nexpected=%s" % (ri[:800], meta["expect"][:800]))
@@ -436,11 +446,18 @@ def evaluate(ctx, v, cases, impl, model):
         elif k in ("unit", "cl-mut", "sv-mut", "sv-hostile", "corpus"):
             if ri.startswith("DONE") or "Q:" in ri or ri.isdigit():
                 stats["nontrivial"].add(line)
-        if ri != rm:
+        # the handler is not reached by a request that HttpRequest::fromWireFormat refuses (no Host, bad request line ...),
+        # which the framing model does not decide: outside the valid streams only the framing part is compared
+        ci, cm = (ri, rm) if k in ("sv-valid", "sv-trailers") or not line.startswith("SV ") else (strip_h(ri), strip_h(rm))
+        if ci != cm:
             stats["disagree"] += 1
             if not failed:
                 v.disagreement("C15 correspondence: model and implementation differ on a %s case" % k, line, ri, rm)
     return stats
+
+
+def strip_h(r):
+    return r.rsplit(" H=", 1)[0]
 
 
 def run(ctx):
